@@ -115,6 +115,8 @@ class Tracer:
             self._install_atoms()
         if "cells" in groups:
             self._install_cells()
+        if "stages" in groups:
+            self._install_stages()
 
     def _install_atoms(self):
         import pdb2pqr.aa as aa
@@ -208,6 +210,155 @@ class Tracer:
         self._patch(cells.Cells, "remove_cell", mk_rem)
         self._patch(cells.Cells, "get_near_cells", mk_near)
         self._patch(cells.Cells, "assign_cells", mk_assign)
+
+
+    # ------------------------------------------------------------------ pipeline stages
+    STAGES = [
+        # (stage, module, class or None, attribute)
+        ("Transform", "pdb2pqr.main", None, "transform_arguments"),
+        ("CheckFiles", "pdb2pqr.main", None, "check_files"),
+        ("CheckOptions", "pdb2pqr.main", None, "check_options"),
+        ("GetDefinitions", "pdb2pqr.io", None, "get_definitions"),
+        ("ReadMolecule", "pdb2pqr.io", None, "get_molecule"),
+        ("DropWater", "pdb2pqr.main", None, "drop_water"),
+        ("SetupMolecule", "pdb2pqr.main", None, "setup_molecule"),
+        ("SetTermini", "pdb2pqr.biomolecule", "Biomolecule", "set_termini"),
+        ("UpdateBonds", "pdb2pqr.biomolecule", "Biomolecule", "update_bonds"),
+        ("LoadFF", "pdb2pqr.forcefield", "Forcefield", "__init__"),
+        ("SetHip", "pdb2pqr.biomolecule", "Biomolecule", "set_hip"),
+        ("Repair", "pdb2pqr.main", None, "is_repairable"),
+        ("Repair", "pdb2pqr.biomolecule", "Biomolecule", "repair_heavy"),
+        ("UpdateSS", "pdb2pqr.biomolecule", "Biomolecule", "update_ss_bridges"),
+        ("Debump", "pdb2pqr.debump", "Debump", "debump_biomolecule"),
+        ("RemoveH", "pdb2pqr.biomolecule", "Biomolecule", "remove_hydrogens"),
+        ("RunPka", "pdb2pqr.main", None, "run_propka"),
+        ("ApplyPka", "pdb2pqr.biomolecule", "Biomolecule", "apply_pka_values"),
+        ("AddH", "pdb2pqr.biomolecule", "Biomolecule", "add_hydrogens"),
+        ("OptInit", "pdb2pqr.hydrogens", "HydrogenRoutines", "set_optimizeable_hydrogens"),
+        ("OptInit", "pdb2pqr.biomolecule", "Biomolecule", "hold_residues"),
+        ("OptInit", "pdb2pqr.hydrogens", "HydrogenRoutines", "initialize_full_optimization"),
+        ("OptInit", "pdb2pqr.hydrogens", "HydrogenRoutines", "initialize_wat_optimization"),
+        ("Optimize", "pdb2pqr.hydrogens", "HydrogenRoutines", "optimize_hydrogens"),
+        ("Cleanup", "pdb2pqr.hydrogens", "HydrogenRoutines", "cleanup"),
+        ("SetStates", "pdb2pqr.biomolecule", "Biomolecule", "set_states"),
+        ("ApplyFF", "pdb2pqr.biomolecule", "Biomolecule", "apply_force_field"),
+        ("Ligand", "pdb2pqr.ligand.mol2", "Mol2Molecule", "assign_parameters"),
+        ("ChargeCheck", "pdb2pqr.main", None, "noninteger_charge"),
+        ("NameScheme", "pdb2pqr.biomolecule", "Biomolecule", "apply_name_scheme"),
+        ("Header", "pdb2pqr.io", None, "print_pqr_header"),
+        ("Header", "pdb2pqr.io", None, "print_pqr_header_cif"),
+        ("RenderLines", "pdb2pqr.io", None, "print_biomolecule_atoms"),
+        ("PrintPqr", "pdb2pqr.main", None, "print_pqr"),
+        ("PrintPdb", "pdb2pqr.main", None, "print_pdb"),
+        ("DumpApbs", "pdb2pqr.io", None, "dump_apbs"),
+    ]
+
+    def _install_stages(self):
+        import importlib
+
+        tr = self
+        tr.bio = None
+        tr.input_heavy = None
+        tr.last_digest = None
+        tr.out_path = getattr(tr, "out_path", None)
+        tr.fs0 = tr.fs_state()
+        tr.fault = getattr(tr, "fault", None)       # (stage, "entry"|"exit", exception class, call index)
+        tr.calls = {}
+        tr.depth = 0
+
+        def mk(stage, attr):
+            def make(orig):
+                def wrapper(*a, **kw):
+                    if not tr.on:
+                        return orig(*a, **kw)
+                    n = tr.calls[(stage, attr)] = tr.calls.get((stage, attr), 0) + 1
+                    nested = tr.depth > 0
+                    tr.depth += 1
+                    try:
+                        if not nested:
+                            tr.stage_event(stage, attr, "enter")
+                            if tr.fault and tr.fault[0] == stage and tr.fault[1] == "entry" and tr.fault[3] == n:
+                                tr.fault_fired = True
+                                raise tr.fault[2](f"injected fault at entry of {stage}")
+                        try:
+                            r = orig(*a, **kw)
+                        except BaseException as e:
+                            if not nested:
+                                tr.stage_event(stage, attr, "raise", exc=type(e).__name__)
+                            raise
+                        if stage == "SetupMolecule" and isinstance(r, tuple):
+                            tr.bio = r[0]
+                            tr.input_heavy = [x for x in tr.bio.atoms if not x.is_hydrogen]
+                        if not nested:
+                            if tr.fault and tr.fault[0] == stage and tr.fault[1] == "exit" and tr.fault[3] == n:
+                                tr.fault_fired = True
+                                tr.stage_event(stage, attr, "raise", exc=tr.fault[2].__name__)
+                                raise tr.fault[2](f"injected fault at exit of {stage}")
+                            tr.stage_event(stage, attr, "exit")
+                        return r
+                    finally:
+                        tr.depth -= 1
+                return wrapper
+            return make
+
+        for stage, mod, klass, attr in self.STAGES:
+            try:
+                m = importlib.import_module(mod)
+                obj = getattr(m, klass) if klass else m
+            except (ImportError, AttributeError):
+                self.unobservable.append(f"{mod}.{klass or ''}.{attr}")
+                continue
+            self._patch(obj, attr, mk(stage, attr))
+
+    def fs_state(self):
+        import hashlib
+        import os
+
+        p = getattr(self, "out_path", None)
+        if not p or not os.path.exists(p):
+            return ("absent",)
+        st = os.stat(p)
+        with open(p, "rb") as f:
+            h = hashlib.sha1(f.read()).hexdigest()
+        return ("present", st.st_size, st.st_mtime_ns, h)
+
+    def digests(self):
+        import hashlib
+
+        b = self.bio
+        if b is None:
+            return None
+
+        def h(items):
+            return hashlib.sha1(repr(items).encode()).hexdigest()[:16]
+        atoms = b.atoms
+        return {"heavy": h([(a.x, a.y, a.z) for a in (self.input_heavy or [])]),
+                "coords": h([(a.x, a.y, a.z) for a in atoms]),
+                "order": h([id(a) for a in atoms]),
+                "numbers": h([(a.ffcharge, a.radius) for a in atoms]),
+                "names": h([(a.name, a.res_name) for a in atoms])}
+
+    def stage_event(self, stage, attr, kind, exc=None):
+        d = self.digests()
+        wrote = []
+        if d is not None and self.last_digest is not None:
+            wrote = [k for k in d if d[k] != self.last_digest[k]]
+        elif d is not None and self.last_digest is None:
+            wrote = ["heavy", "coords", "order", "numbers", "names"]   # the model has just been created
+        self.last_digest = d if d is not None else self.last_digest
+        if kind == "exit" and d is not None:
+            sd = getattr(self, "stage_digests", None)
+            if sd is None:
+                sd = self.stage_digests = {}
+            name = stage
+            if stage == "Debump" and "AddH" in sd:
+                name = "Debump2"
+            if stage in ("LoadFF", "RenderLines") and "ChargeCheck" in sd and stage in sd:
+                name = None      # repeated helper calls inside later stages
+            if name:
+                sd[name] = {"heavy": d["heavy"], "coords": d["coords"], "numbers": d["numbers"]}
+        fs = self.fs_state()
+        self.emit(e="stage", stage=stage, attr=attr, kind=kind, exc=exc, wrote=wrote, pqr_differs=(fs != self.fs0))
 
 
 _MISSING = object()
